@@ -5,18 +5,17 @@ import (
 	"os"
 	"strings"
 
-	"github.com/openGemini/openGemini/engine"
 )
 
 // probe: ad-hoc statements against one generated data set under several configurations
 // (debugging aid: ogh C08 -seed s -D only=<data set> -D q="select ...;;select ...").
-func probe(sh *engine.VerifShard, qs string, configs []config) {
+func probe(dp *deployment, qs string, configs []config) {
 	for _, q := range strings.Split(qs, ";;") {
 		if strings.TrimSpace(q) == "" {
 			continue
 		}
 		for _, cf := range configs {
-			parts, err := sh.QueryWith(q, qlFields, tagKeys, cf.opts())
+			parts, err := dp.query(q, cf.opts())
 			if err != nil {
 				err = fmt.Errorf("%s", strings.SplitN(err.Error(), "\n", 2)[0])
 			}
